@@ -298,42 +298,42 @@ fn enqueue_n2() { check_enqueue::<2>(); }
 #[kani::unwind(6)]
 fn enqueue_n3() { check_enqueue::<3>(); }
 
-//@ harness id=txseg.k.pop_mtu_probe.n0 kind=bounded props=C01,C14 tier=quick timeout=600 bound="N_SEG==0" pairs=txseg.pop_probe.wf,txseg.pop_probe.when,txseg.pop_probe.view,txseg.pop_probe.noop,txseg.pop_probe.frame,txseg.pop_mtu_probe.safety text="pop_mtu_probe from any wf queue: wf kept (byte counters restored), pops iff the last segment is an undelivered probe with that seq_nr, otherwise identity"
+//@ harness id=txseg.k.pop_mtu_probe.n0 kind=bounded props=C01,C06,C14 tier=quick timeout=600 bound="N_SEG==0" pairs=txseg.pop_probe.wf,txseg.pop_probe.when,txseg.pop_probe.view,txseg.pop_probe.noop,txseg.pop_probe.frame,txseg.pop_mtu_probe.safety text="pop_mtu_probe from any wf queue: wf kept (byte counters restored), pops iff the last segment is an undelivered probe with that seq_nr, otherwise identity"
 #[kani::proof]
 #[kani::unwind(3)]
 fn pop_mtu_probe_n0() { check_pop_mtu_probe::<0>(); }
 
-//@ harness id=txseg.k.pop_mtu_probe.n1 kind=bounded props=C01,C14 tier=quick timeout=600 bound="N_SEG==1" pairs=txseg.pop_probe.wf,txseg.pop_probe.when,txseg.pop_probe.view,txseg.pop_probe.noop,txseg.pop_probe.frame,txseg.pop_mtu_probe.safety text="pop_mtu_probe from any wf queue: wf kept (byte counters restored), pops iff the last segment is an undelivered probe with that seq_nr, otherwise identity"
+//@ harness id=txseg.k.pop_mtu_probe.n1 kind=bounded props=C01,C06,C14 tier=quick timeout=600 bound="N_SEG==1" pairs=txseg.pop_probe.wf,txseg.pop_probe.when,txseg.pop_probe.view,txseg.pop_probe.noop,txseg.pop_probe.frame,txseg.pop_mtu_probe.safety text="pop_mtu_probe from any wf queue: wf kept (byte counters restored), pops iff the last segment is an undelivered probe with that seq_nr, otherwise identity"
 #[kani::proof]
 #[kani::unwind(4)]
 fn pop_mtu_probe_n1() { check_pop_mtu_probe::<1>(); }
 
-//@ harness id=txseg.k.pop_mtu_probe.n2 kind=bounded props=C01,C14 tier=quick timeout=600 bound="N_SEG==2" pairs=txseg.pop_probe.wf,txseg.pop_probe.when,txseg.pop_probe.view,txseg.pop_probe.noop,txseg.pop_probe.frame,txseg.pop_mtu_probe.safety text="pop_mtu_probe from any wf queue: wf kept (byte counters restored), pops iff the last segment is an undelivered probe with that seq_nr, otherwise identity"
+//@ harness id=txseg.k.pop_mtu_probe.n2 kind=bounded props=C01,C06,C14 tier=quick timeout=600 bound="N_SEG==2" pairs=txseg.pop_probe.wf,txseg.pop_probe.when,txseg.pop_probe.view,txseg.pop_probe.noop,txseg.pop_probe.frame,txseg.pop_mtu_probe.safety text="pop_mtu_probe from any wf queue: wf kept (byte counters restored), pops iff the last segment is an undelivered probe with that seq_nr, otherwise identity"
 #[kani::proof]
 #[kani::unwind(5)]
 fn pop_mtu_probe_n2() { check_pop_mtu_probe::<2>(); }
 
-//@ harness id=txseg.k.pop_mtu_probe.n3 kind=bounded props=C01,C14 tier=thorough timeout=1500 bound="N_SEG==3" pairs=txseg.pop_probe.wf,txseg.pop_probe.when,txseg.pop_probe.view,txseg.pop_probe.noop,txseg.pop_probe.frame,txseg.pop_mtu_probe.safety text="pop_mtu_probe from any wf queue: wf kept (byte counters restored), pops iff the last segment is an undelivered probe with that seq_nr, otherwise identity"
+//@ harness id=txseg.k.pop_mtu_probe.n3 kind=bounded props=C01,C06,C14 tier=thorough timeout=1500 bound="N_SEG==3" pairs=txseg.pop_probe.wf,txseg.pop_probe.when,txseg.pop_probe.view,txseg.pop_probe.noop,txseg.pop_probe.frame,txseg.pop_mtu_probe.safety text="pop_mtu_probe from any wf queue: wf kept (byte counters restored), pops iff the last segment is an undelivered probe with that seq_nr, otherwise identity"
 #[kani::proof]
 #[kani::unwind(6)]
 fn pop_mtu_probe_n3() { check_pop_mtu_probe::<3>(); }
 
-//@ harness id=txseg.k.pop_expired.n0 kind=bounded props=C01,C14 tier=quick timeout=600 bound="N_SEG==0" pairs=txseg.pop_expired.wf,txseg.pop_expired.expired,txseg.pop_expired.not_expired,txseg.pop_expired.empty,txseg.pop_expired.noop_counters,txseg.pop_expired.frame,txseg.pop_expired_mtu_probe.safety text="pop_expired_mtu_probe from any wf queue: wf kept (byte counters restored on Expired), Expired only for an undelivered probe whose retransmit count reached the limit while the RTO fired; rewind_to is the sequence number before the probe"
+//@ harness id=txseg.k.pop_expired.n0 kind=bounded props=C01,C06,C14 tier=quick timeout=600 bound="N_SEG==0" pairs=txseg.pop_expired.wf,txseg.pop_expired.expired,txseg.pop_expired.not_expired,txseg.pop_expired.empty,txseg.pop_expired.noop_counters,txseg.pop_expired.frame,txseg.pop_expired_mtu_probe.safety text="pop_expired_mtu_probe from any wf queue: wf kept (byte counters restored on Expired), Expired only for an undelivered probe whose retransmit count reached the limit while the RTO fired; rewind_to is the sequence number before the probe"
 #[kani::proof]
 #[kani::unwind(3)]
 fn pop_expired_n0() { check_pop_expired::<0>(); }
 
-//@ harness id=txseg.k.pop_expired.n1 kind=bounded props=C01,C14 tier=quick timeout=600 bound="N_SEG==1" pairs=txseg.pop_expired.wf,txseg.pop_expired.expired,txseg.pop_expired.not_expired,txseg.pop_expired.empty,txseg.pop_expired.noop_counters,txseg.pop_expired.frame,txseg.pop_expired_mtu_probe.safety text="pop_expired_mtu_probe from any wf queue: wf kept (byte counters restored on Expired), Expired only for an undelivered probe whose retransmit count reached the limit while the RTO fired; rewind_to is the sequence number before the probe"
+//@ harness id=txseg.k.pop_expired.n1 kind=bounded props=C01,C06,C14 tier=quick timeout=600 bound="N_SEG==1" pairs=txseg.pop_expired.wf,txseg.pop_expired.expired,txseg.pop_expired.not_expired,txseg.pop_expired.empty,txseg.pop_expired.noop_counters,txseg.pop_expired.frame,txseg.pop_expired_mtu_probe.safety text="pop_expired_mtu_probe from any wf queue: wf kept (byte counters restored on Expired), Expired only for an undelivered probe whose retransmit count reached the limit while the RTO fired; rewind_to is the sequence number before the probe"
 #[kani::proof]
 #[kani::unwind(4)]
 fn pop_expired_n1() { check_pop_expired::<1>(); }
 
-//@ harness id=txseg.k.pop_expired.n2 kind=bounded props=C01,C14 tier=quick timeout=600 bound="N_SEG==2" pairs=txseg.pop_expired.wf,txseg.pop_expired.expired,txseg.pop_expired.not_expired,txseg.pop_expired.empty,txseg.pop_expired.noop_counters,txseg.pop_expired.frame,txseg.pop_expired_mtu_probe.safety text="pop_expired_mtu_probe from any wf queue: wf kept (byte counters restored on Expired), Expired only for an undelivered probe whose retransmit count reached the limit while the RTO fired; rewind_to is the sequence number before the probe"
+//@ harness id=txseg.k.pop_expired.n2 kind=bounded props=C01,C06,C14 tier=quick timeout=600 bound="N_SEG==2" pairs=txseg.pop_expired.wf,txseg.pop_expired.expired,txseg.pop_expired.not_expired,txseg.pop_expired.empty,txseg.pop_expired.noop_counters,txseg.pop_expired.frame,txseg.pop_expired_mtu_probe.safety text="pop_expired_mtu_probe from any wf queue: wf kept (byte counters restored on Expired), Expired only for an undelivered probe whose retransmit count reached the limit while the RTO fired; rewind_to is the sequence number before the probe"
 #[kani::proof]
 #[kani::unwind(5)]
 fn pop_expired_n2() { check_pop_expired::<2>(); }
 
-//@ harness id=txseg.k.pop_expired.n3 kind=bounded props=C01,C14 tier=thorough timeout=1500 bound="N_SEG==3" pairs=txseg.pop_expired.wf,txseg.pop_expired.expired,txseg.pop_expired.not_expired,txseg.pop_expired.empty,txseg.pop_expired.noop_counters,txseg.pop_expired.frame,txseg.pop_expired_mtu_probe.safety text="pop_expired_mtu_probe from any wf queue: wf kept (byte counters restored on Expired), Expired only for an undelivered probe whose retransmit count reached the limit while the RTO fired; rewind_to is the sequence number before the probe"
+//@ harness id=txseg.k.pop_expired.n3 kind=bounded props=C01,C06,C14 tier=thorough timeout=1500 bound="N_SEG==3" pairs=txseg.pop_expired.wf,txseg.pop_expired.expired,txseg.pop_expired.not_expired,txseg.pop_expired.empty,txseg.pop_expired.noop_counters,txseg.pop_expired.frame,txseg.pop_expired_mtu_probe.safety text="pop_expired_mtu_probe from any wf queue: wf kept (byte counters restored on Expired), Expired only for an undelivered probe whose retransmit count reached the limit while the RTO fired; rewind_to is the sequence number before the probe"
 #[kani::proof]
 #[kani::unwind(6)]
 fn pop_expired_n3() { check_pop_expired::<3>(); }
